@@ -306,3 +306,57 @@ package stake
 //@   loop 1: invariant issuedReward != nil && immuDelegateeLedger != nil
 //@   loop 2: invariant cons_ok && blockHeight == bheight(blockCtx) && bheight(blockCtx) == old(bheight(blockCtx)) && ctrler.delegateeLedger == old(ctrler.delegateeLedger) && ctrler.frozenLedger == old(ctrler.frozenLedger) && ctrler.rewardLedger == old(ctrler.rewardLedger) && ctrler.govParams == old(ctrler.govParams) && ctrler.stakeLimiter == old(ctrler.stakeLimiter) && blockCtx.GovHandler == old(blockCtx.GovHandler)
 //@   loop 2: invariant issuedReward != nil && immuDelegateeLedger != nil
+
+// ---- validator set sent to consensus (C10, C01) --------------------------------------------------
+
+// ranking: total power, then number of stakes, then address (descending): a strict total order on
+// delegatees with distinct addresses
+//@ func (vs PowerOrderDelegatees) Less(i, j)
+//@   pure
+//@   nopanic
+//@   requires 0 <= i && i < len(vs) && 0 <= j && j < len(vs) && vs[i] != nil && vs[j] != nil
+//@   ensures result == (vs[i].TotalPower > vs[j].TotalPower || (vs[i].TotalPower == vs[j].TotalPower && (len(vs[i].Stakes) > len(vs[j].Stakes) || (len(vs[i].Stakes) == len(vs[j].Stakes) && content(vs[i].Addr) != content(vs[j].Addr) && !(len(vs[i].Addr) == 0 && len(vs[j].Addr) == 0) && lexrank(vs[i].Addr) > lexrank(vs[j].Addr)))))   [C10,C01]
+
+//@ func (vs AddressOrderDelegatees) Less(i, j)
+//@   pure
+//@   nopanic
+//@   requires 0 <= i && i < len(vs) && 0 <= j && j < len(vs) && vs[i] != nil && vs[j] != nil
+//@   ensures result == (content(vs[i].Addr) != content(vs[j].Addr) && !(len(vs[i].Addr) == 0 && len(vs[j].Addr) == 0) && lexrank(vs[i].Addr) < lexrank(vs[j].Addr))   [C10,C01]
+
+// truncation to the maximum validator count keeps the best-ranked prefix
+//@ func selectValidators(delegatees, maxVals)
+//@   nopanic
+//@   requires maxVals >= 0
+//@   ensures len(result) == min(len(delegatees), maxVals) && arr(result) == arr(delegatees) && off(result) == off(delegatees)   [C10]
+//@   ensures forall k :: 0 <= k && k < len(result) ==> result[k] == delegatees[k]                              [C10]
+
+// the merge of the previous and the new validator lists (both in address order): every emitted update is
+// either the removal (power 0) of a previous validator whose address is not the current new one, or the
+// new power of a new validator that is absent from, or differs in power from, the previous list
+//@ func validatorUpdates(existing, newers)
+//@   nopanic
+//@   assumes forall k :: 0 <= k && k < len(existing) ==> existing[k] != nil
+//@   assumes forall k :: 0 <= k && k < len(newers) ==> newers[k] != nil && newers[k].TotalPower >= 0
+//@   modifies nothing
+//@   assert@call(UpdateValidator,0): $arg0 == existing[i].PubKey && $arg1 == 0 && lexrank(existing[i].Addr) < lexrank(newers[j].Addr)   [C10]
+//@   assert@call(UpdateValidator,2): $arg0 == newers[j].PubKey && $arg1 == newers[j].TotalPower && $arg1 >= 0 && (content(existing[i].Addr) == content(newers[j].Addr) || (len(existing[i].Addr) == 0 && len(newers[j].Addr) == 0)) && existing[i].TotalPower != newers[j].TotalPower   [C10]
+//@   assert@call(UpdateValidator,1): $arg0 == newers[j].PubKey && $arg1 == newers[j].TotalPower && $arg1 >= 0 && lexrank(existing[i].Addr) > lexrank(newers[j].Addr)   [C10]
+//@   assert@call(UpdateValidator,3): $arg0 == existing[i].PubKey && $arg1 == 0 && j >= len(newers)           [C10]
+//@   assert@call(UpdateValidator,4): $arg0 == newers[j].PubKey && $arg1 == newers[j].TotalPower && $arg1 >= 0 && i >= len(existing)   [C10]
+//@   loop 0: invariant 0 <= i && i <= len(existing) && 0 <= j && j <= len(newers)
+//@   loop 0: decreases len(existing) - i + len(newers) - j
+//@   loop 1: invariant 0 <= i && i <= len(existing) && 0 <= j && j <= len(newers) && (i >= len(existing) || j >= len(newers))
+//@   loop 1: decreases len(existing) - i
+//@   loop 2: invariant 0 <= i && i <= len(existing) && 0 <= j && j <= len(newers) && i >= len(existing)
+//@   loop 2: decreases len(newers) - j
+
+// end of block: the new set is the top of the candidate ranking; it is compared with the set announced
+// before, and becomes the announced set
+//@ func (ctrler *StakeCtrler) updateValidators(maxVals)
+//@   requires ctrler != nil && maxVals >= 0
+//@   requires forall k :: 0 <= k && k < len(ctrler.allDelegatees) ==> ctrler.allDelegatees[k] != nil && ctrler.allDelegatees[k].TotalPower >= 0
+//@   requires forall k :: 0 <= k && k < len(ctrler.lastValidators) ==> ctrler.lastValidators[k] != nil
+//@   modifies everything
+//@   assert@call(selectValidators,0): $arg0 == ctrler.allDelegatees && $arg1 == maxVals                        [C10]
+//@   assert@call(validatorUpdates,0): $arg0 == ctrler.lastValidators && $arg1 == newValidators                [C10]
+//@   assert@store(StakeCtrler.lastValidators,0): $target == ctrler && $value == newValidators                 [C10]
